@@ -148,11 +148,11 @@ theorem DFrame.hitTask (origin s : Nat) (acc : State × Bool) (t : Nat) :
         · exact DFrame.refl _
         · dsimp only
           split
-          · refine (DFrame.taskCancel _ _ _).trans ?_
+          · refine DFrame.trans (DFrame.taskCancel acc.1 t true) ?_
             refine DFrame.trans ?_ (DFrame.setTask_st _ _ _ (by intro _; rfl) (by intro _; rfl))
             exact DFrame.setScope_ctl _ _ _ (by intro _; rfl)
-          · exact (DFrame.taskCancel _ _ _).trans
-              (DFrame.setTask_st _ _ _ (by intro _; rfl) (by intro _; rfl))
+          · refine DFrame.trans (DFrame.taskCancel acc.1 t true) ?_
+            exact DFrame.setTask_st _ _ _ (by intro _; rfl) (by intro _; rfl)
       · exact DFrame.refl _
 
 theorem DFrame.foldl {α : Type} (f : State × Bool → α → State × Bool)
@@ -543,6 +543,16 @@ theorem TailFrame.setScope_self {s : Nat} {m m' : State} (h : TailFrame s m m')
   · intro i hi; simp only [State.setScope, upd_other _ _ _ _ hi]; exact h.caughtOther i hi
   · intro i hi; simp only [State.setScope, upd_other _ _ _ _ hi]; exact h.hostOther i hi
 
+theorem TailFrame.setTask_r {s : Nat} {m m' : State} (h : TailFrame s m m') (t : Nat)
+    (f : Task → Task) (hf : ∀ x, (f x).scope = x.scope) : TailFrame s m (m'.setTask t f) := by
+  refine ⟨h.keep, h.caughtOther, h.hostOther, h.now, h.timers, h.cur, h.ready, h.running, ?_⟩
+  intro u
+  rw [← h.taskScope u]
+  simp only [State.setTask, upd_apply]
+  split
+  · subst_vars; exact hf _
+  · rfl
+
 theorem TailFrame.taskUncancel {s : Nat} {m m' : State} (h : TailFrame s m m') (t n : Nat) :
     TailFrame s m (taskUncancel m' t n) := by
   refine ⟨h.keep, h.caughtOther, h.hostOther, h.now, h.timers, h.cur, h.ready, h.running, ?_⟩
@@ -622,8 +632,8 @@ theorem exitDecide_spec (m : State) (t s : Nat) (ev : ExcVal) :
         · split
           · split
             · exact (TailFrame.refl s m).setScope_any _ _ (by intro _; rfl) (by intro _; rfl) (by intro _; rfl)
-            · exact TailFrame.refl s m
-          · exact TailFrame.refl s m
+            · exact (TailFrame.refl s m).setTask_r _ _ (by intro _; rfl)
+          · exact (TailFrame.refl s m).setTask_r _ _ (by intro _; rfl)
         · intro x; rfl
       · exact TailFrame.refl s m
     · split
